@@ -26,16 +26,25 @@ class Msh:
 
 
 class SymDisc:
-    """recording RHS over the free algebra: every call returns fresh symbols and logs (time, presented state)"""
+    """recording RHS over the free algebra: every call returns fresh symbols and logs (time, presented state).
+    reuse=True: the RHS writes its values into the SAME output list / array objects at every call (a preallocated
+    work buffer, as an optimised space operator would) -- the same mathematical function, a different aliasing behaviour"""
 
-    def __init__(self, ncell):
+    def __init__(self, ncell, reuse=False):
         self.nelem = ncell
         self.calls = []
+        self.reuse = reuse
+        self._out = [objarray([Lin() for _ in range(ncell)])]
 
     def rhs(self, f):
         j = len(self.calls) + 1
         self.calls.append((f.time, [x for x in f.data[0]]))
-        return [objarray([Lin.sym("k%d_%d" % (j, c)) for c in range(self.nelem)])]
+        vals = [Lin.sym("k%d_%d" % (j, c)) for c in range(self.nelem)]
+        if self.reuse:
+            for c in range(self.nelem):
+                self._out[0][c] = vals[c]
+            return self._out
+        return [objarray(vals)]
 
 
 class PolyDisc:
@@ -70,11 +79,11 @@ def rationalise(x, bound=1000):
     return Fraction(x).limit_denominator(10 ** 4), False
 
 
-def realise(clsname, dts, t0):
+def realise(clsname, dts, t0, reuse=False):
     """run the real step on formal symbols; dts: list of per-cell dt (len 1 => scalar dt)"""
     cls = getattr(tnum, clsname)
     nc = len(dts)
-    disc = SymDisc(nc)
+    disc = SymDisc(nc, reuse=reuse)
     solver = cls(Msh(nc), disc)
     f = field.fdata(M1(), Msh(nc), [objarray([Lin.sym("y%d" % c) for c in range(nc)])], t=t0)
     dt = float(dts[0]) if nc == 1 else np.array(dts, dtype=float)
@@ -110,7 +119,7 @@ def realise(clsname, dts, t0):
         tend, _ = rationalise((Fraction(f.time) - Fraction(t0)) / mindt)
         recs.append(dict(cls=clsname, A=[[core.rat(x) for x in r] for r in A], b=[core.rat(x) for x in b],
                          cpres=[core.rat(x) for x in cp], tend=core.rat(tend), affine=bool(affine), exact=bool(exact),
-                         poly=[], dts=[str(Fraction(d)) for d in dts], cell=c))
+                         poly=[], dts=[str(Fraction(d)) for d in dts], cell=c, reuse=bool(reuse)))
     return recs
 
 
@@ -156,19 +165,19 @@ def run(tier):
         except Exception as ex:
             poly = []
             rep.extra.setdefault("poly_failures", []).append("%s: %s" % (cn, ex))
-        for dts, t0 in cfgs:
+        for dts, t0, reuse in [(d, t, False) for (d, t) in cfgs] + [(d, t, True) for (d, t) in cfgs[:4]]:
             try:
-                rs = realise(cn, dts, t0)
+                rs = realise(cn, dts, t0, reuse=reuse)
             except Exception as ex:     # the code inspected a value or raised: an observation, judged as not-an-RK-step
                 rs = [dict(cls=cn, A=[[[0, 1]]], b=[[0, 1]], cpres=[[0, 1]], tend=[0, 1], affine=False, exact=False,
-                           poly=[], dts=[str(d) for d in dts], cell=0, raised=str(ex)[:100])]
+                           poly=[], dts=[str(d) for d in dts], cell=0, raised=str(ex)[:100], reuse=bool(reuse))]
             for r in rs:
                 rid += 1
                 r["id"] = rid
                 r["poly"] = poly if (len(dts) == 1 and dts[0] == 1.0) else []
                 recs.append(r)
                 rep.evaluations += 1
-                rep.nontrivial.add((cn, tuple(dts), t0))
+                rep.nontrivial.add((cn, tuple(dts), t0, reuse))
         rep.sample({"class": cn, "realised": [r for r in recs if r["cls"] == cn][0]}, limit=10)
     wd = core.scratch("c05")
     jin, jout = os.path.join(wd, "in.ndjson"), os.path.join(wd, "out.ndjson")
@@ -184,7 +193,7 @@ def run(tier):
         if b["clause"].startswith("DRIFT"):
             rep.drift.append("class %s realises a tableau different from the transcription in RK.tla (dts=%s)" % (r["cls"], r["dts"]))
             continue
-        rep.violation(b["clause"], {"cls": r["cls"]}, r)
+        rep.violation(b["clause"], {"cls": r["cls"], "rhs_reuses_buffers": r.get("reuse", False)}, r)
     return rep.finish()
 
 
